@@ -12,6 +12,8 @@ import (
 
 	"dsim/core"
 	"dsim/simos"
+
+	"github.com/dolthub/dolt/go/libraries/doltcore/ref"
 	dstore "dsim/store"
 )
 
@@ -33,6 +35,7 @@ type TxnOp struct {
 }
 
 type TxnBody struct {
+	B2NoWS     bool    `json:"b2_no_ws,omitempty"` // C22: branch b2 starts without a working set (as a branch that arrived by push)
 	NSess      int     `json:"nsess"`
 	Autocommit []bool  `json:"autocommit"`
 	Ops        []TxnOp `json:"ops"`
@@ -53,6 +56,8 @@ func (h TXN) Generate(seed uint64, tier string) *core.Scenario {
 	if tier == "thorough" {
 		n = r.Range(20, 160)
 	}
+	b.B2NoWS = h.Prop == "C22" && r.Chance(1, 2)
+	b1Weight := []int{10, 25, 50}[r.Intn(3)] // C25: how busy the second branch is in this run
 	for len(b.Ops) < n {
 		s := r.Intn(b.NSess)
 		x := r.Intn(100)
@@ -91,10 +96,41 @@ func (h TXN) Generate(seed uint64, tier string) *core.Scenario {
 			b.Ops = append(b.Ops, TxnOp{S: s, Kind: "rollback"})
 		case x < 99:
 			if h.Prop == "C25" {
-				b.Ops = append(b.Ops, TxnOp{S: s, Kind: []string{"addidx", "dropidx"}[r.Intn(2)]})
+				b.Ops = append(b.Ops, TxnOp{S: s, Kind: []string{"addidx", "dropidx", "addidx", "dropidx", "dropx"}[r.Intn(5)]})
+			} else if r.Chance(1, 3) {
+				b.Ops = append(b.Ops, TxnOp{S: s, Kind: "dropx"})
 			}
 		default:
 			b.Ops = append(b.Ops, TxnOp{Kind: "restart"})
+		}
+		if h.Prop == "C22" && r.Chance(1, 4) {
+			// a second branch b2, written by its own autocommit session through the revision
+			// database name and read by the others inside their transactions
+			switch y := r.Intn(10); {
+			case y < 3:
+				b.Ops = append(b.Ops, TxnOp{Kind: "b2insert", PK: r.Intn(pkDom), A: r.Intn(aDom), B: r.Intn(3), C: r.Intn(3)})
+			case y < 4:
+				b.Ops = append(b.Ops, TxnOp{Kind: "b2delete", PK: r.Intn(pkDom)})
+			default:
+				b.Ops = append(b.Ops, TxnOp{S: r.Intn(b.NSess), Kind: "readb2"})
+			}
+		}
+		if h.Prop == "C25" {
+			// a second branch edited by its own autocommit session and merged into main now and then
+			if r.Intn(100) < b1Weight {
+				switch y := r.Intn(100); {
+				case y < 25:
+					b.Ops = append(b.Ops, TxnOp{Kind: "b1insert", PK: r.Intn(pkDom), A: r.Intn(aDom), B: r.Intn(3), C: r.Intn(3)})
+				case y < 45:
+					b.Ops = append(b.Ops, TxnOp{Kind: "b1update", PK: r.Intn(pkDom), Col: []string{"a", "b"}[r.Intn(2)], Val: r.Intn(aDom)})
+				case y < 68:
+					b.Ops = append(b.Ops, TxnOp{Kind: "b1delete", PK: r.Intn(pkDom)})
+				case y < 76:
+					b.Ops = append(b.Ops, TxnOp{Kind: "b1dropx"})
+				default:
+					b.Ops = append(b.Ops, TxnOp{Kind: "merge", A: r.Intn(3) / 2}) // A == 1: main into b1, else b1 into main
+				}
+			}
 		}
 	}
 	for s := 0; s < b.NSess; s++ {
@@ -203,6 +239,7 @@ type msess struct {
 	active bool
 	start  mtab
 	view   mtab
+	view2  mtab // C22: branch b2 as of the transaction's start (never written by these sessions)
 }
 
 func (h TXN) Execute(t *testing.T, sc *core.Scenario) *core.Result {
@@ -235,7 +272,7 @@ func (h TXN) Execute(t *testing.T, sc *core.Scenario) *core.Result {
 		return res
 	}
 	for _, q := range []string{
-		"CREATE TABLE kv (pk INT PRIMARY KEY, a INT, b INT, c VARCHAR(16), INDEX ia (a), INDEX ibc (b, c))",
+		"CREATE TABLE kv (pk INT PRIMARY KEY, x INT, a INT, b INT, c VARCHAR(16), INDEX ia (a), INDEX ibc (b, c))",
 		"CALL dolt_commit('-Am', 'schema')",
 	} {
 		if err := setup.MustExec(ctx, q); err != nil {
@@ -244,7 +281,9 @@ func (h TXN) Execute(t *testing.T, sc *core.Scenario) *core.Result {
 		}
 	}
 	branch := mtab{}
+	branch2 := mtab{} // C22: committed rows of kv on branch b2
 	hasIA := true
+	hasX := true
 	newSessions := func() ([]*Sess, []*msess, bool) {
 		var ss []*Sess
 		var ms []*msess
@@ -263,6 +302,52 @@ func (h TXN) Execute(t *testing.T, sc *core.Scenario) *core.Result {
 	if !ok {
 		return res
 	}
+	b1Dropped, b1DelAfterDrop := false, false
+	var bs, mg *Sess // C25: a session on branch b1 and the session that merges b1 into main
+	sideSessions := func() bool {
+		if h.Prop != "C25" {
+			return true
+		}
+		var err error
+		if bs, err = w.NewSession(ctx, true); err == nil {
+			if err = bs.MustExec(ctx, "CALL dolt_checkout('b1')"); err == nil {
+				mg, err = w.NewSession(ctx, true)
+			}
+		}
+		if err != nil {
+			res.Panic = "side sessions: " + err.Error()
+			return false
+		}
+		return true
+	}
+	var wb *Sess // C22: writes to b2 through `test/b2`
+	if h.Prop == "C22" {
+		if err := setup.MustExec(ctx, "CALL dolt_branch('b2')"); err != nil {
+			res.Panic = "setup: " + err.Error()
+			return res
+		}
+		if b.B2NoWS {
+			// a branch that arrives by push or replication has a head and no working set
+			wsRef, err := ref.WorkingSetRefForHead(ref.NewBranchRef("b2"))
+			if err == nil {
+				err = w.Env.DoltDB(ctx).DeleteWorkingSet(ctx, wsRef)
+			}
+			if err != nil {
+				res.Panic = "setup: deleting the working set of b2: " + err.Error()
+				return res
+			}
+			res.Fault("branch-without-working-set")
+		}
+	}
+	if h.Prop == "C25" {
+		if err := setup.MustExec(ctx, "CALL dolt_branch('b1')"); err != nil {
+			res.Panic = "setup: " + err.Error()
+			return res
+		}
+	}
+	if !sideSessions() {
+		return res
+	}
 	sig := core.NewSig()
 	overlaps, commits := 0, 0
 
@@ -271,6 +356,7 @@ func (h TXN) Execute(t *testing.T, sc *core.Scenario) *core.Result {
 			ms[i].active = true
 			ms[i].start = branch.clone()
 			ms[i].view = branch.clone()
+			ms[i].view2 = branch2.clone()
 		}
 	}
 	// commitModel applies the outcome-driven commit. ok = what the engine reported.
@@ -278,6 +364,12 @@ func (h TXN) Execute(t *testing.T, sc *core.Scenario) *core.Result {
 		m := ms[i]
 		if !m.active {
 			return
+		}
+		if !engineOK {
+			// a conflict makes dolt roll the transaction back by itself; any other commit error
+			// leaves the session inside its transaction. The client reaction is the same in both
+			// cases, and it puts the session into a state the model knows.
+			ss[i].Exec(ctx, "ROLLBACK")
 		}
 		merged, conflict := merge3(m.start, branch, m.view)
 		concurrent := branch.key() != m.start.key()
@@ -333,8 +425,10 @@ func (h TXN) Execute(t *testing.T, sc *core.Scenario) *core.Result {
 		return out
 	}
 	// indexMirror compares every index lookup of the session with the primary rows it sees itself.
-	indexMirror := func(i, step int) {
-		full, err := ss[i].Exec(ctx, "SELECT pk, a, b, c FROM kv")
+	var indexMirrorS func(sess *Sess, i, step int)
+	indexMirror := func(i, step int) { indexMirrorS(ss[i], i, step) }
+	indexMirrorS = func(sess *Sess, i, step int) {
+		full, err := sess.Exec(ctx, "SELECT pk, a, b, c FROM kv")
 		if err != nil {
 			return
 		}
@@ -343,7 +437,7 @@ func (h TXN) Execute(t *testing.T, sc *core.Scenario) *core.Result {
 			if a < 0 {
 				q = "SELECT pk, a, b, c FROM kv WHERE a IS NULL"
 			}
-			got, err := ss[i].Exec(ctx, q)
+			got, err := sess.Exec(ctx, q)
 			if err != nil {
 				res.Violate("index-read-error", "prop=C25", step, "%s: %s", q, firstLine(err))
 				continue
@@ -360,7 +454,7 @@ func (h TXN) Execute(t *testing.T, sc *core.Scenario) *core.Result {
 			}
 		}
 		// covering range scan over (b, c): every index entry must have its row and vice versa
-		got, err := ss[i].Exec(ctx, "SELECT b, c, pk FROM kv WHERE b >= 0 ORDER BY b, c, pk")
+		got, err := sess.Exec(ctx, "SELECT b, c, pk FROM kv WHERE b >= 0 ORDER BY b, c, pk")
 		if err == nil {
 			var want [][]string
 			for _, r := range full {
@@ -389,7 +483,8 @@ func (h TXN) Execute(t *testing.T, sc *core.Scenario) *core.Result {
 				return res
 			}
 			ss, ms, ok = newSessions()
-			if !ok {
+			wb = nil
+			if !ok || !sideSessions() {
 				return res
 			}
 			res.Fault("clean-restart")
@@ -432,6 +527,151 @@ func (h TXN) Execute(t *testing.T, sc *core.Scenario) *core.Result {
 			s.Exec(ctx, "ROLLBACK")
 			m.active = false
 			m.explicit = false
+			continue
+		case "b2insert", "b2delete":
+			if h.Prop != "C22" {
+				continue
+			}
+			if wb == nil {
+				var err error
+				if wb, err = w.NewSession(ctx, true); err != nil {
+					res.Panic = err.Error()
+					return res
+				}
+			}
+			if op.Kind == "b2insert" {
+				if _, err := wb.Exec(ctx, fmt.Sprintf("INSERT INTO `test/b2`.kv (pk, a, b, c) VALUES (%d, %d, %d, '%s')", op.PK, op.A, op.B, cstr(op.C))); err == nil {
+					branch2[op.PK] = mrow{render(op.PK), render(op.A), render(op.B), cstr(op.C)}
+					res.Fault("write-on-second-branch")
+				}
+			} else if _, err := wb.Exec(ctx, fmt.Sprintf("DELETE FROM `test/b2`.kv WHERE pk = %d", op.PK)); err == nil {
+				delete(branch2, op.PK)
+			}
+			continue
+		case "readb2":
+			if h.Prop != "C22" {
+				continue
+			}
+			ensureTxn(i)
+			got, err := s.Exec(ctx, "SELECT pk, a, b, c FROM `test/b2`.kv")
+			if err != nil {
+				res.Probe("read_b2_error:" + errStr(err)[:min(50, len(errStr(err)))])
+			} else {
+				var want [][]string
+				for _, r := range m.view2 {
+					want = append(want, r[:])
+				}
+				res.Evaluations++
+				if rowsKey(got) != rowsKey(want) {
+					res.Violate("read-differs-from-snapshot", "prop=C22;read=other branch", step, "session %d read branch b2 through `test/b2` and got\n%s\nbut b2 held at the start of its transaction\n%s", i, indent(rowsKey(got)), indent(rowsKey(want)))
+				}
+				res.Probe("read_other_branch")
+			}
+			if s.Autocommit && !m.explicit {
+				commitModel(i, step, true, "")
+			}
+			continue
+		case "b1insert", "b1update", "b1delete", "b1dropx":
+			if bs == nil {
+				continue
+			}
+			var q string
+			if op.Kind == "b1update" || op.Kind == "b1delete" {
+				// aim at a row that exists on b1
+				if have, err := bs.Exec(ctx, "SELECT pk FROM kv ORDER BY pk"); err == nil && len(have) > 0 {
+					op.PK, _ = strconv.Atoi(have[op.PK%len(have)][0])
+				}
+			}
+			switch op.Kind {
+			case "b1insert":
+				q = fmt.Sprintf("INSERT INTO kv (pk, a, b, c) VALUES (%d, %d, %d, '%s')", op.PK, op.A, op.B, cstr(op.C))
+			case "b1update":
+				q = fmt.Sprintf("UPDATE kv SET %s = %d WHERE pk = %d", op.Col, op.Val, op.PK)
+			case "b1delete":
+				q = fmt.Sprintf("DELETE FROM kv WHERE pk = %d", op.PK)
+			default:
+				q = "ALTER TABLE kv DROP COLUMN x"
+			}
+			if _, err := bs.Exec(ctx, q); err == nil {
+				res.Fault("edit-on-second-branch")
+				res.Probe("ok:" + op.Kind)
+				if op.Kind == "b1dropx" {
+					b1Dropped = true
+				}
+				if op.Kind == "b1delete" && b1Dropped {
+					b1DelAfterDrop = true
+				}
+				indexMirrorS(bs, -1, step)
+			}
+			continue
+		case "merge":
+			if bs == nil {
+				continue
+			}
+			mg.Exec(ctx, "CALL dolt_commit('-Am', 'main before merge')")
+			bs.Exec(ctx, "CALL dolt_commit('-Am', 'b1 before merge')")
+			if op.A == 1 {
+				// the other direction: b1 catches up with main (b1 is not modelled; only its
+				// indexes are compared with its table)
+				if rows, err := bs.Exec(ctx, "CALL dolt_merge('main')"); err == nil && len(rows) == 1 && len(rows[0]) >= 3 && rows[0][2] == "0" {
+					res.Fault("branch-merge-into-b1")
+					indexMirrorS(bs, -1, step)
+				}
+				continue
+			}
+			rows, err := mg.Exec(ctx, "CALL dolt_merge('b1')")
+			if err == nil && len(rows) == 1 && len(rows[0]) >= 3 && rows[0][2] == "0" {
+				res.Fault("branch-merge")
+				if b1Dropped && b1DelAfterDrop && hasX {
+					res.Probe("merge_of_branch_that_dropped_column_and_deleted")
+				}
+				b1DelAfterDrop = false
+				// what the merge should contain is C29's business (a pure function of the three
+				// roots); the row model of main is re-seeded from the merged table, and the
+				// indexes are compared with that table
+				full, err := mg.Exec(ctx, "SELECT pk, a, b, c FROM kv")
+				if err != nil {
+					res.Violate("read-error-after-merge", "prop=C25", step, "%s", firstLine(err))
+					continue
+				}
+				branch = mtab{}
+				for _, r := range full {
+					pk, _ := strconv.Atoi(r[0])
+					branch[pk] = mrow{r[0], r[1], r[2], r[3]}
+				}
+				indexMirrorS(mg, -2, step)
+				if _, err := mg.Exec(ctx, "SELECT x FROM kv LIMIT 1"); err != nil {
+					hasX = false
+				}
+			} else {
+				res.Probe("branch_merge_refused")
+				if err != nil {
+					res.Probe("branch_merge_refused:" + errStr(err)[:min(70, len(errStr(err)))])
+				}
+			}
+			continue
+		case "dropx":
+			// a schema change inside a transaction, concurrent with the others: the unused column x,
+			// stored in front of the indexed columns, is dropped (once per run); the row model does
+			// not contain x, so nothing changes for it, but every later transaction-commit merge
+			// has different schemas on its two sides
+			if !hasX || (s.Autocommit && ms[i].explicit) {
+				// (whether an autocommit session is still inside START TRANSACTION after the
+				// implicit commit of a DDL statement is not the property's business: not generated)
+				continue
+			}
+			ensureTxn(i)
+			// ALTER TABLE commits the session's transaction implicitly when the statement ends
+			// (also with autocommit off and inside START TRANSACTION): it is a commit point like
+			// any other, with the same merge against what was committed meanwhile
+			_, err := s.Exec(ctx, "ALTER TABLE kv DROP COLUMN x")
+			if err == nil {
+				hasX = false
+				res.Fault("drop-leading-column-in-transaction")
+			} else {
+				res.Probe("drop_column_refused:" + errStr(err)[:min(50, len(errStr(err)))])
+			}
+			commitModel(i, step, err == nil, errStr(err))
 			continue
 		case "addidx", "dropidx":
 			// DDL commits implicitly; keep it simple: only when nobody has an open transaction
